@@ -140,7 +140,7 @@ func ruleRegistry(c *Ctx, r *Rep) {
 	}
 	st, _ := fsdb.Underlying().(*types.Struct)
 	written := map[string]bool{}
-	var onlyKnown []string
+	var onlyKnown, fromFileGuarded []string
 	below := g.Reach(open)
 	// the visit function of a directory walk started below Open runs on Open's behalf, however it is handed over
 	for cb, starter := range c.walkCallbacks() {
@@ -170,6 +170,24 @@ func ruleRegistry(c *Ctx, r *Rep) {
 					continue
 				}
 				written[field.Name()] = true
+				// what was read from the entity's file is registered whether or not the alias was known before (a second
+				// opening of the same backend must see a key that was put into the file in between)
+				if mu, isMU := ins.(*ssa.MapUpdate); isMU {
+					vo := strings.Join(pv.Origins(mu.Value), ",") + "," + strings.Join(pv.Contents(mu.Value), ",")
+					if strings.Contains(vo, "ReadPem(") || strings.Contains(vo, "importPem(") {
+						for _, gd := range guardsOf(b) {
+							cond := gd.Cond
+							if u, isNot := cond.(*ssa.UnOp); isNot && u.Op == token.NOT {
+								cond = u.X
+							}
+							if ex, isEx := cond.(*ssa.Extract); isEx && ex.Index == 1 {
+								if lk, isLk := ex.Tuple.(*ssa.Lookup); isLk && lk.CommaOk && mapFieldOf(lk.X) != nil {
+									fromFileGuarded = append(fromFileGuarded, field.Name()+" at "+c.Pos(ins.Pos()))
+								}
+							}
+						}
+					}
+				}
 				for _, gd := range guardsOf(b) {
 					cond, truth := gd.Cond, gd.Truth
 					if u, isNot := cond.(*ssa.UnOp); isNot && u.Op == token.NOT {
@@ -201,6 +219,7 @@ func ruleRegistry(c *Ctx, r *Rep) {
 		}
 	}
 	r.Check(len(onlyKnown) == 0, "new-entities-registered", c.FnPos(open), "no registry is written only for aliases that are already known", strings.Join(uniq(onlyKnown), "; "))
+	r.Check(len(fromFileGuarded) == 0, "file-content-always-registered", c.FnPos(open), "what is read from an entity's artifact file is registered whether or not the alias is already known", strings.Join(uniq(fromFileGuarded), "; "))
 	// one entity, one name: a function that files an entity in several of the backend's registries uses the same key
 	// for all of them (the getters look all of them up under the alias the planner uses)
 	for _, f := range c.Funcs {
@@ -631,6 +650,45 @@ func ruleExportParts(c *Ctx, r *Rep) {
 			if all {
 				written = true
 			}
+		}
+	}
+	// storing an artifact exports it, whatever it holds: no successful return of PutBuildArtifact comes before the call
+	// that leads to the write (a key without a certificate is written too)
+	{
+		var exportCalls []ssa.CallInstruction
+		for _, ci := range callsIn(put) {
+			cc := ci.Common()
+			if cc.IsInvoke() && cc.Method.Name() == "WriteFile" {
+				exportCalls = append(exportCalls, ci)
+				continue
+			}
+			if g := cc.StaticCallee(); g != nil && c.InModule(g) {
+				for f := range c.Graph().Reach(g) {
+					for _, ci2 := range callsIn(f) {
+						if ci2.Common().IsInvoke() && ci2.Common().Method.Name() == "WriteFile" {
+							exportCalls = append(exportCalls, ci)
+						}
+					}
+				}
+			}
+		}
+		n := 0
+		for _, ret := range returnsOf(put) {
+			res := retResults(ret)
+			if len(res) == 0 {
+				continue
+			}
+			if k, isK := res[len(res)-1].(*ssa.Const); !isK || k.Value != nil {
+				continue // hands back an error value: an early failure, or the export's own result
+			}
+			n++
+			dom := false
+			for _, ec := range exportCalls {
+				if instrDominates(ec, ret) {
+					dom = true
+				}
+			}
+			r.Check(dom, sprintf("export-before-success|%s#%d", c.FuncKey(put), n), c.Pos(ret.Pos()), "a successful return of PutBuildArtifact lies behind the call that writes the artifact file", sprintf("%v", dom))
 		}
 	}
 	_ = bufs
